@@ -592,6 +592,7 @@ def leg_integrate(ctx, P, spec, rng, force=None):
         ctx.count(case, nontrivial=(len(sub) > 0 and (kind != "ones" or any(n > 1 for n in spec["shape"]))),
                   leg="integrate")
         ctx.hist("integrate", f"{spec['cls']}/{k}axes/subset{len(sub)}/{kind}")
+        ctx.hist("default-args", f"integrate/axes {'left out' if not kwargs else 'given as ' + type(kwargs['axes']).__name__}")
         try:
             res = np.asarray(g.integrate(data, **kwargs), dtype=float)
             one = np.asarray(g.integrate(1, **kwargs), dtype=float)
@@ -894,6 +895,7 @@ def leg_transform(ctx, P, spec, rng, force=None):
         _begin(case)
         ctx.count(case, nontrivial=(src != tgt and pts_in.size > 0), leg="transform")
         ctx.hist("transform", f"{spec['cls']}/{src}->{tgt}/{shp}")
+        ctx.hist("batch-shape", f"transform/{shp}")
         try:
             res = np.array(g.transform(pts_in.copy(), src, tgt), dtype=float)
         except Exception as e:  # noqa: BLE001
@@ -1032,6 +1034,8 @@ def leg_contains(ctx, P, spec, rng, force=None):
         flat_res = [bool(x) for x in np.ravel(res)]
         ctx.count(case, nontrivial=(len(set(flat_res)) > 1 or len(flat_res) == 1), leg="contains")
         ctx.hist("contains", f"{spec['cls']}/{coords}/{shp}{'/default' if use_default else ''}")
+        ctx.hist("batch-shape", f"contains/{shp}")
+        ctx.hist("default-args", f"contains/{'coords left out' if use_default else 'given'}")
         for x in flat_res:
             ctx.hist("contains-result", x)
         # monitor: a point whose grid coordinates lie within the bounds is contained, one that lies
@@ -1137,6 +1141,8 @@ def leg_normalize(ctx, P, spec, rng, force=None):
         moved = bool(ok_shape and np.any(flat_res != flat_in))
         ctx.count(case, nontrivial=moved, leg="normalize")
         ctx.hist("normalize", f"{spec['cls']}/reflect={reflect}/{shp}{'/scalar' if scalar else ''}{'/default' if use_default else ''}")
+        ctx.hist("batch-shape", f"normalize/{'scalar' if scalar else shp}")
+        ctx.hist("default-args", f"normalize/{'reflect left out' if use_default else 'given'}")
         for ax in range(k):
             for c in (cats[ax][: len(flat_in)] if cats else []):
                 ctx.hist("point-category", c)
@@ -1297,7 +1303,7 @@ def leg_distance(ctx, P, spec, rng, force=None):
                 a1, a2, shp = p1[0].copy(), p2[0].copy(), "single"
             elif m >= 4 and r < 0.55:
                 a1, a2, shp = p1.reshape(2, m // 2, -1).copy(), p2.reshape(2, m // 2, -1).copy(), "batch-2d"
-            elif r < 0.6 and not int_pts:
+            elif 0.55 <= r < 0.6 and not int_pts:
                 a1, a2, shp = np.zeros((0, p1.shape[-1])), np.zeros((0, p1.shape[-1])), "empty"
             cont_ = "array"
             if int_pts and rng.random() < 0.5:
@@ -1336,6 +1342,8 @@ def leg_distance(ctx, P, spec, rng, force=None):
         wrapped = any(P_ is not None and np.any(np.abs(raw[:, j]) > P_ / 2) for j, P_ in enumerate(periods))
         ctx.count(case, nontrivial=bool(np.any(raw != 0)), leg="distance")
         ctx.hist("distance", f"{spec['cls']}/{coords}/{shp}{'/int' if int_pts else ''}{'/default' if use_default else ''}")
+        ctx.hist("batch-shape", f"distance/{shp}{'/int-' + cont_ if int_pts else ''}")
+        ctx.hist("default-args", f"distance/{'coords left out' if use_default else 'given'}")
         ctx.hist("distance-branch", "wrapped" if wrapped else ("periodic-no-wrap" if any(periods) else "no-periodic-axis"))
         # monitor --------------------------------------------------------------------------------
         ctx.monitor_evals += 1
@@ -1537,6 +1545,7 @@ def leg_random(ctx, P, spec, rng, force=None):
         _begin(case)
         ctx.count(case, nontrivial=True, leg="random")
         ctx.hist("random", f"{spec['cls']}/{coords}/bd={'0' if bd == 0 else 'pos'}{'/defaults' if defaults else ''}")
+        ctx.hist("default-args", f"random/left out: {','.join(defaults) if defaults else 'nothing'}")
         ckw = {} if "coords" in defaults else {"coords": coords}
         try:
             pt = np.array(g.get_random_point(**kw), dtype=float)
